@@ -22,6 +22,9 @@ void *malloc(__CPROVER_size_t);
 #ifndef NSLOT
 #define NSLOT (9 + L)
 #endif
+#ifndef LENIENT      /* 0: the agent refuses unknown conversion characters (printf_format returns), 1: it accepts them, consuming nothing */
+#define LENIENT 0
+#endif
 
 struct S_struct_frg__va_struct VS;     /* harness-owned: overflow_arg_area is visible at every hook */
 uint8_t *c20_fmt; uint64_t c20_fmt_size;  /* exact-size format buffer */
@@ -57,6 +60,10 @@ void vp_text(uint8_t *p, uint64_t n) {
 	/* [p, p+n] inside: the run itself (read by the sink) and the byte after it (printf_format reads it next: the '%' or NUL that ended the run) */
 	if(!inside) { VP_ASSERT(0, "literal text handed to the sink, or the byte that ends it, lies outside the format buffer"); VP_STOP(); }
 	VP_NATIVE_ONLY(VP_OBSERVE(p - c20_fmt)); VP_OBSERVE(n);
+}
+void vp_conv_unknown(uint8_t t) {      /* lenient agent only */
+	c20_check_slots();
+	VP_OBSERVE(t);
 }
 void vp_conv(uint8_t t, uint32_t szmod, uint64_t v) {
 	c20_nconv++; c20_check_slots();
@@ -100,7 +107,7 @@ static int c20_scan(const uint8_t *f, int n) {   /* f[n] == 0 */
 		q = a && st == SH_; int qh = q && c == 'h'; UPD(st, q, C_); a = a && !qh;
 		int cv = a && st == C_;
 		int known = c == 'c' || c == 'p' || c == 's' || c == 'd' || c == 'i' || c == 'o' || c == 'x' || c == 'X' || c == 'u';
-		count += cv && known && !dirpos; UPD(st, cv, known ? T_ : END_);
+		count += cv && known && !dirpos; UPD(st, cv, (known || LENIENT) ? T_ : END_);   /* lenient agent: an unknown conversion consumes nothing, parsing goes on */
 	}
 	return maxpos + count;
 }
@@ -116,12 +123,12 @@ static void c20_setup(int len, int nslot) {
 	VS.f2 = 0;
 }
 static void c20_run(void) {
-	int r = (int)c20_printf(c20_fmt, &VS);
+	int r = LENIENT ? (int)c20_printf_lenient(c20_fmt, &VS) : (int)c20_printf(c20_fmt, &VS);
 	c20_check_slots();
 	VP_OBSERVE(r); VP_OBSERVE(c20_nout); VP_OBSERVE(c20_nconv);
 	VP_OBSERVE(C20_USED());
 	VP_WITNESS(r != 0, "printf_format completed");
-	VP_WITNESS(r == 0, "printf_format returned the agent's error");
+	if(!LENIENT) VP_WITNESS(r == 0, "printf_format returned the agent's error");
 }
 
 /* byte classes (for -DC0=k: constrain byte 0 to one class) */
